@@ -253,15 +253,23 @@ def run_family(ctx, prefix, behs, *, label, timeout_ms, unit_ms=200, slack=REAL_
             {"module": "TcpConn", "behaviour": beh, "base_idx": case["beh"], "driver_args": cmd[2:], "timeout_ms": timeout_ms,
              "unit_ms": unit_ms, "slack": slack, "predicate": mine[0], "case": case})
     if unconfirmed:
-        if ctx.violations + len(ctx.known_matched) == v0:
-            raise vlib.Inconclusive(unconfirmed[0])
         ctx.notes.append("%s: not reproduced alone: %s" % (label, unconfirmed))
+        if not hasattr(ctx, "_tc_unconfirmed"):
+            ctx._tc_unconfirmed = []
+        ctx._tc_unconfirmed += unconfirmed
     if other:
         ctx.notes.append("%s: predicates of other properties failing in this family (reported by their own checks): %s" % (label, dict(other)))
     if hung:
         ctx.notes.append("%s: %d connection(s) whose handler had not returned %d ms after the script ended: %s" % (
             label, len(hung), 4000, json.dumps(brief(hung[0]))))
     return cases, brows, pr, hung
+
+
+def finish(ctx):
+    """A failure seen in a batch run that could not be reproduced alone, and nothing else found: inconclusive."""
+    un = getattr(ctx, "_tc_unconfirmed", [])
+    if un and not ctx.violations and not ctx.known_matched:
+        raise vlib.Inconclusive(un[0])
 
 
 def replay_violation(ctx, path, prefix):
